@@ -10,14 +10,14 @@ from collections import Counter
 from vt import core, dsw
 
 PROP = 'C02'
-RULE = ('designs of strata S1, S1x, S2, S3, S4, S5, S6 (bounded-exhaustive grammar, see vt/gen.py; quick = fixed core + seed-rotated '
+RULE = ('designs of strata S1 (with S1d, S1L, S1n, S1p), S1x, S2 (with S2s), S3, S4, S5, S6 (bounded-exhaustive grammar, see vt/gen.py; quick = fixed core + seed-rotated '
         'slice), each with <= REF_LIMIT reference sequences; per design IterateSATGen is exhausted with the real solver and the '
         'returned multiset compared with the complete reference set. states = sequences returned, transitions = solver calls '
         '(returned + final UNSAT). Non-trivial = the design has >= 2 valid sequences.')
 ASSUMPTIONS = ['reference model vt/ref.py states the documented semantics (readings where under-specified: DESIGN.md section 3)',
                'pycryptosat answers SAT/UNSAT correctly']
 BUDGET_S = {'quick': 60, 'thorough': 300}
-STRATA = ['S1', 'S1L', 'S1n', 'S1p', 'S1x', 'S2', 'S2s', 'S3', 'S4', 'S5', 'S6']
+STRATA = ['S1', 'S1d', 'S1L', 'S1n', 'S1p', 'S1x', 'S2', 'S2s', 'S3', 'S4', 'S5', 'S6']
 QUICK_CAPS = dsw.QUICK_CAPS_BIG
 
 
